@@ -449,3 +449,89 @@ func c17CLI(R *vr.Result, rng *rand.Rand) {
 	}
 	_ = math.Inf
 }
+
+// TestVerifC17Reload: the policy is part of how the agent was started, not of the store configuration: reloading the
+// store configuration (successfully or not, same or another base directory) must leave it in force.
+func TestVerifC17Reload(t *testing.T) {
+	R := vr.New("C17", "policy-after-reload", "one in-process agent started with a zxcvbn condition; its store configuration is reloaded by SIGHUP (same configuration, an extra unused parameter set, another default, another base directory, a document that does not load) and after every reload passwords that fail / satisfy the condition (reference verdict: zxcvbn called directly) are sent through add and update of the request interface and through HTTP add / update: the failing ones must be refused with the directory byte-identical, the satisfying ones stored. Non-trivial: every (reload kind, write path, password); distinct by that tuple")
+	defer R.Write()
+	rng := R.Rand("c17r")
+	verifSetLogging(true)
+	defer verifSetLogging(false)
+	// one agent only: SIGHUP reaches every agent of the process and the reload event is attributable only then
+	for ci, cond := range []c17CondStr{{"score >= 3", "valid", c17Cond{"score", 3}}}[:1] {
+		w, err := c17Agent(R, rng, "zxcvbn", cond.Text)
+		if err != nil {
+			R.Fatal = err.Error()
+			return
+		}
+		w.iface.Check() //nolint:errcheck (the dispatcher has installed its signal handler)
+		st := w.st
+		other := filepath.Join(st.Dir, "other-base")
+		os.MkdirAll(filepath.Join(other, ".tmp"), 0700) //nolint:errcheck
+		plantIn(rng, c18Conf{Sets: st.Sets, Def: 1}, other, []ovlUser{{Name: "root", Pw: "root-Password-9!x", Admin: true, Set: 1}})
+		extra := append(append([]ref.ParamSet{}, st.Sets...), ref.ParamSet{ID: 9, Algo: ref.AlgoArgon, Time: 1, Memory: 8, Threads: 1, Length: 16})
+		kinds := []struct{ kind, yaml, base string }{
+			{"before-any-reload", "", st.Base},
+			{"same-configuration", ref.YAML(st.Base, 1, st.Sets), st.Base},
+			{"extra-unused-set", ref.YAML(st.Base, 1, extra), st.Base},
+			{"other-default", ref.YAML(st.Base, 2, extra), st.Base},
+			{"does-not-load", "basedir: [unclosed", st.Base},
+			{"other-base-directory", ref.YAML(other, 1, st.Sets), other},
+		}
+		n := 0
+		for _, k := range kinds {
+			id := fmt.Sprintf("c%d/%s", ci, k.kind)
+			R.Mark(id)
+			if k.yaml != "" {
+				if !c18Reload(st.Cfg, k.yaml) {
+					R.Inconcl("reload event not seen: " + id)
+					continue
+				}
+				w.iface.Check() //nolint:errcheck
+			}
+			admin, _ := w.post("/api/authenticate", map[string]any{"username": "root", "password": "root-Password-9!x"})
+			_ = admin
+			_, am := w.post("/api/authenticate", map[string]any{"username": "root", "password": "root-Password-9!x"})
+			sess, _ := am["session"].(string)
+			for _, pw := range []string{"password", "abc123", "qwertyuiop", "kT7#vQ2$mZ9!pL4^wX8&bN3", "Quartz-Zebra-Lamp-77-horse!"} {
+				n++
+				u := fmt.Sprintf("n%d", n)
+				want := cond.Cond.Pass(pw, u)
+				for _, path := range []string{"iface-add", "iface-update", "http-add", "http-update"} {
+					target := u + "-" + path
+					before := ref.TakeSnap(k.base)
+					var stored bool
+					switch path {
+					case "iface-add":
+						stored = w.iface.Add(target, pw, false) == nil
+					case "iface-update":
+						w.iface.Add(target, "Initial-Quartz-Zebra-Lamp-1!", false) //nolint:errcheck
+						before = ref.TakeSnap(k.base)
+						stored = w.iface.Update(target, pw) == nil
+					case "http-add":
+						code, _ := w.post("/api/add", map[string]any{"session": sess, "username": target, "password": pw, "admin": false})
+						stored = code == 200
+					case "http-update":
+						w.iface.Add(target, "Initial-Quartz-Zebra-Lamp-1!", false) //nolint:errcheck
+						before = ref.TakeSnap(k.base)
+						code, _ := w.post("/api/update", map[string]any{"username": target, "oldpassword": "Initial-Quartz-Zebra-Lamp-1!", "newpassword": pw})
+						stored = code == 200
+					}
+					wantP := cond.Cond.Pass(pw, target)
+					_ = want
+					diff := ref.Diff(before, ref.TakeSnap(k.base), ref.DiffOpts{IgnorePath: ref.IgnoreTmpDir})
+					R.Case(fmt.Sprintf("%s|%s|%s|%s", cond.Text, k.kind, path, pw), true)
+					R.Count("after_reload_probes", 1)
+					wit := map[string]any{"condition": cond.Text, "reload": k.kind, "path": path, "password": pw, "user": target, "reference_passes": wantP, "stored": stored, "directory_changes": diff}
+					if !wantP && (stored || len(diff) > 0) {
+						R.Violate("c17:failing-password-stored:after-reload:"+k.kind, fmt.Sprintf("after reload '%s' the password %q (fails %s for user %s) was accepted by %s", k.kind, pw, cond.Text, target, path), id, wit)
+					}
+					if wantP && !stored {
+						R.Violate("c17:satisfying-password-refused:after-reload:"+k.kind, fmt.Sprintf("after reload '%s' the password %q (satisfies %s) was refused by %s", k.kind, pw, cond.Text, path), id, wit)
+					}
+				}
+			}
+		}
+	}
+}
